@@ -161,10 +161,26 @@ def encode_job(job: Dict[str, Any]) -> Dict[str, Any]:
     literal = job.get("literal")
 
     def build():
-        return P.compile_abi(P.encode_program(t, lens, backend, literal), job["version"], job.get("optimize"))
+        return P.compile_abi(P.encode_program(t, lens, backend, literal, bool(job.get("int_exprs"))), job["version"], job.get("optimize"))
 
     out, prog, teal = _common(job, build)
     base = {"kind": "encode", "type": T.T_str(t), "job": job}
+    if literal is not None and job.get("int_exprs"):
+        # Int(<n>) expressions: an out-of-range value is not rejected when built, the PROGRAM must fail
+        if prog is None:
+            return out
+        in_range = _literal_in_range(t, literal)
+        cfg = CtxConfig(mode="A", version=job["version"])
+        p = _concrete_run(teal, cfg, {"GroupIndex": 0})
+        q = _expected_outcome(not in_range, M.sdk_encode(t, _clip(t, literal)) if in_range else None)
+        out["obligations"] = out["replayed"] = 1
+        out["nonfail"] = 1
+        if tv.outcomes_differ_concretely(p, q):
+            out["violations"].append(dict(base, what="Int-expression leaf: %s" % ("in range" if in_range else "out of range, the program must fail"),
+                                          teal_outcome=tv.describe_outcome(p), reference_outcome=tv.describe_outcome(q), teal=teal[-2000:]))
+        else:
+            out["discharged"] = 1
+        return out
     if literal is not None:
         # Python literals: out-of-range integers must be rejected when the value is built
         in_range = _literal_in_range(t, literal)
@@ -222,6 +238,10 @@ def encode_job(job: Dict[str, Any]) -> Dict[str, Any]:
     if job.get("keep_teal"):
         out["teal"] = teal
     return out
+
+
+def _clip(t, v):
+    return v
 
 
 def _literal_in_range(t, v) -> bool:
